@@ -69,7 +69,15 @@ theorem toDag_wf_iff (s : DStore) (attrs : Nat → Attrs) :
   ⟨fun hs => ⟨DagStore.toDag_wf hs attrs, fun _ hv => ⟨hs.parents_nil hv, hs.children_nil hv⟩⟩,
    fun h => dwf_of_toDag h.1 h.2⟩
 
--- both directions are used: a symmetric, duplicate-free store with a 2-cycle is not `DWF`, and its graph is not either
+-- right to left: a store written down by hand (0 → 2 ← 1; not the result of a history) is `DWF` because its graph is
+example : DWF ⟨3, fun _ => [], fun i => if i = 2 then [0, 1] else [], fun i => if i = 0 ∨ i = 1 then [2] else []⟩ :=
+  (toDag_wf_iff _ (fun _ => [])).2
+    ⟨⟨by decide, by decide, by decide, by decide, by decide, Dag.acyclic_of_rank id (by decide) (by decide)⟩,
+     fun v hv => by
+      have h2 : v ≠ 2 := by simp at hv; omega
+      have h01 : ¬ (v = 0 ∨ v = 1) := by simp at hv; omega
+      simp [h2, h01]⟩
+-- a symmetric, duplicate-free store with a 2-cycle is not `DWF`, and its graph is not either
 example : ¬ Dag.DWF (toDag ⟨2, fun _ => [], fun i => if i = 0 then [1] else if i = 1 then [0] else [],
     fun i => if i = 0 then [1] else if i = 1 then [0] else []⟩) :=
   fun h => h.acyclic 0 (by decide) (.step (b := 1) (by decide) (.edge (by decide)))
